@@ -487,7 +487,7 @@ func pendingObs(a []string) bool {
 		return pendingObs(a[1:])
 	}
 	switch a[0] {
-	case "sbu", "pend", "hsbu", "shistp", "bhistp":
+	case "sbu", "pend", "hsbu", "shistp", "bhistp", "pins", "pcred", "pgame":
 		return true
 	}
 	return false
@@ -542,7 +542,8 @@ func isObservation(a []string) bool {
 		return isObservation(a[1:])
 	}
 	switch a[0] {
-	case "synced", "bal", "abal", "utxos", "sbu", "pend", "addrs", "shist", "bhist", "hsbu", "shistp", "bhistp", "wallets":
+	case "synced", "bal", "abal", "utxos", "sbu", "pend", "addrs", "shist", "bhist", "hsbu", "shistp", "bhistp", "wallets",
+		"pins", "pcred", "pgame", "glog", "wseq":
 		return true
 	}
 	return false
